@@ -617,6 +617,13 @@ func (sc *segmentController[T, O]) updateOptions(resourceOpts *commonv1.Resource
 }
 
 func (sc *segmentController[T, O]) selectSegments(timeRange timestamp.TimeRange, reopenClosed bool) (tt []Segment[T, O], err error) {
+	return sc.selectSegmentsOpt(timeRange, reopenClosed, false)
+}
+
+// selectSegmentsOpt is selectSegments; with guardUnpinned a segment that a reopenClosed=false select did
+// not pin is handed out behind a no-op DecRef (the exported SelectSegments does that for its callers, who
+// release everything they get).
+func (sc *segmentController[T, O]) selectSegmentsOpt(timeRange timestamp.TimeRange, reopenClosed, guardUnpinned bool) (tt []Segment[T, O], err error) {
 	sc.RLock()
 	defer sc.RUnlock()
 	last := len(sc.lst) - 1
@@ -653,7 +660,7 @@ func (sc *segmentController[T, O]) selectSegments(timeRange timestamp.TimeRange,
 						break
 					}
 				}
-				if !pinned {
+				if !pinned && guardUnpinned {
 					// The caller DecRefs everything it gets. It holds no reference on this
 					// segment, so its DecRef must not release one that somebody else
 					// acquires in the meantime.
